@@ -143,6 +143,58 @@ Definition aif ens radii values idx w grid := aif_from ens radii values idx w 0 
 Definition near_surface (band : Q) (ens : list (list qv)) (radii : list Q) (g : qv) : bool :=
   existsb (fun atoms => existsb (fun ar => Qle_bool (Qabs (d2 (fst ar) g - snd ar * snd ar)) band) (combine atoms radii)) ens.
 
+(* ------------------------------------------------------------------ block-wise evaluation of a large grid *)
+(* Every descriptor is defined point by point, so a grid may be walked in consecutive blocks of `step` points -- the
+   LAST block holding the remaining (length mod step) points -- and the pieces concatenated (prune: with the index
+   offset of the block, the indicator field: with the column offset into the nearest-atom rows).
+   Proofs/Grid.v: for every step > 0 the blocks cover the grid and the block-wise result IS the one-piece result. *)
+Fixpoint chunks_fuel {A} (fuel step : nat) (l : list A) : list (list A) :=
+  match fuel with
+  | O => []
+  | S f => match l with
+           | [] => []
+           | _ :: _ => firstn step l :: chunks_fuel f step (skipn step l)
+           end
+  end.
+Definition chunks {A} (step : nat) (l : list A) : list (list A) := chunks_fuel (length l) step l.
+
+Definition aso_blocks (ens : list (list qv)) (radii : list Q) (w : option (list Q)) (blocks : list (list qv)) : list Q :=
+  flat_map (aso ens radii w) blocks.
+Definition nearest_blocks (atoms : list qv) (cut : Q) (blocks : list (list qv)) : list Z :=
+  flat_map (map (nearest atoms cut)) blocks.
+Fixpoint prune_blocks (q : qv -> bool) (off : Z) (blocks : list (list qv)) : list Z :=
+  match blocks with
+  | [] => []
+  | b :: r => filter_idx_from q off b ++ prune_blocks q (off + Z.of_nat (length b)) r
+  end.
+Fixpoint aif_blocks (ens : list (list qv)) (radii : list Q) (values : list (list Q)) (idx : list (list Z)) (w : option (list Q))
+         (k : nat) (blocks : list (list qv)) : list Q :=
+  match blocks with
+  | [] => []
+  | b :: r => aif_from ens radii values idx w k b ++ aif_blocks ens radii values idx w (k + length b) r
+  end.
+
+(* ------------------------------------------------------------------ one point of a large rectangular grid *)
+(* point number idx of rectangular_grid without building the mesh: idx = (j * nx + i) * nz + k  (y slowest, z fastest) *)
+Definition grid_dims (r1 r2 : qv) (pad s : Q) : option (list Q * list Q * list Q) :=
+  let '(a1, a2, a3) := r1 in let '(b1, b2, b3) := r2 in
+  match axis (a1 - pad) (b1 + pad) s, axis (a2 - pad) (b2 + pad) s, axis (a3 - pad) (b3 + pad) s with
+  | Some xs, Some ys, Some zs => Some (xs, ys, zs)
+  | _, _, _ => None
+  end.
+Definition mesh_at (xs ys zs : list Q) (idx : Z) : option qv :=
+  let nx := Z.of_nat (length xs) in let ny := Z.of_nat (length ys) in let nz := Z.of_nat (length zs) in
+  if ((0 <=? idx) && (idx <? ny * (nx * nz)))%Z then
+    Some (nth (Z.to_nat ((idx / nz) mod nx)) xs 0, nth (Z.to_nat (idx / nz / nx)) ys 0, nth (Z.to_nat (idx mod nz)) zs 0)
+  else None.
+Definition grid_at (r1 r2 : qv) (pad s : Q) (idx : Z) : option qv :=
+  match grid_dims r1 r2 pad s with Some (xs, ys, zs) => mesh_at xs ys zs idx | None => None end.
+Definition grid_count (r1 r2 : qv) (pad s : Q) : option Z :=
+  match grid_dims r1 r2 pad s with
+  | Some (xs, ys, zs) => Some (Z.of_nat (length ys) * (Z.of_nat (length xs) * Z.of_nat (length zs)))%Z
+  | None => None
+  end.
+
 (* ------------------------------------------------------------------ correspondence *)
 (* compact literals: points / numbers with a common (power-of-two) denominator *)
 Definition qpts (den : positive) (l : list (Z * Z * Z)) : list qv :=
@@ -151,6 +203,7 @@ Definition qnums (den : positive) (l : list Z) : list Q := map (fun x => Qred (x
 
 Inductive gcase :=
 | CGrid (r1 r2 : qv) (pad s tol : Q) (obs : option (list qv))
+| CGridAt (r1 r2 : qv) (pad s tol : Q) (count : Z) (samples : list (Z * qv))
 | CNearest (band : Q) (ens : list (list qv)) (cut : Q) (grid : list qv) (obs : list (list Z))
 | CPrune (band : Q) (atoms : list qv) (cut eps : Q) (grid : list qv) (kept : list Z)
 | CAso (band tol : Q) (ens : list (list qv)) (radii : list Q) (w : option (list Q)) (grid : list qv) (obs : list Q)
@@ -180,6 +233,14 @@ Definition gcheck (c : gcase) : bool :=
       | None, None => true
       | Some g, Some o => all2 (vcloseQ tol) g o
       | _, _ => false
+      end
+  | CGridAt r1 r2 pad s tol count samples =>
+      (* a grid too large for a literal: the number of points and the points at the sampled positions (C19_grid_at) *)
+      match grid_dims r1 r2 pad s with
+      | Some (xs, ys, zs) =>
+          (Z.of_nat (length ys) * (Z.of_nat (length xs) * Z.of_nat (length zs)) =? count)%Z &&
+          forallb (fun ip => match mesh_at xs ys zs (fst ip) with Some m => vcloseQ tol m (snd ip) | None => false end) samples
+      | None => false
       end
   | CNearest band ens cut grid obs => nearest_rows_ok band ens cut grid obs
   | CPrune band atoms cut eps grid kept => prune_okb band atoms cut eps grid kept
